@@ -822,4 +822,21 @@ example : (0 : ℝ) < 8 ∧ (1 : ℝ) < 2 ∧ (0 : ℝ) < 3408 ∧ (0 : ℝ) < 0
   norm_num
 
 
+/-! ### 8b. the float32 evaluation the driver runs (`scoreF`) -/
+
+private theorem one_plus_zero_f32 : rndP 24 (rnd64 ((1 : Rat) + 0)) = 1 := by decide +kernel
+
+/-- float level: at the reference size (delta = 0) the float32 score IS the float32 metric, bit for bit —
+    for every float32 metric value (`rndP 24 m = m`) -/
+theorem C20_scoreF_reference (m : Rat) (hm : rndP 24 m = m) : scoreF m 0 = m := by
+  unfold scoreF scoreWith
+  simp only [one_plus_zero_f32, mul_one, hm]
+
+/-- float level: a zero metric scores zero whatever the bonus -/
+theorem C20_scoreF_zero_metric (d : Rat) : scoreF 0 d = 0 := by
+  simp [scoreF, scoreWith, rndP]
+
+/-- ¾ is a float32 value: the hypothesis of `C20_scoreF_reference` is satisfiable; and a concrete bonus -/
+example : rndP 24 (3/4 : Rat) = 3/4 ∧ scoreF (3/4) (1/8) = 27/32 := by decide +kernel
+
 end QKV.Props.C20
